@@ -230,6 +230,102 @@ fn check_eval_poly(f: &gfref::Field, eng: &str, marked: &[usize], trunc: usize, 
     Ok(n)
 }
 
+/// Large structured indicator vectors, described compactly:
+///   hyp:<mask>:<v>   positions x with parity(x & mask) == v      (a hyperplane half)
+///   mod:<m>:<r>      positions x with x % m == r
+///   blk:<b>:<v>      positions x with (x / b) % 2 == v           (alternating aligned blocks)
+///   rnd:<seed>:<p>   pseudo-random positions, density p/16
+///   cpl:<a>,<b>,..   everything except the listed positions
+fn structured(desc: &str) -> Vec<usize> {
+    let p: Vec<&str> = desc.split(':').collect();
+    match p[0] {
+        "hyp" => {
+            let (mask, v): (usize, u32) = (p[1].parse().unwrap(), p[2].parse().unwrap());
+            (0..65536).filter(|x| (x & mask).count_ones() & 1 == v).collect()
+        }
+        "mod" => {
+            let (m, r): (usize, usize) = (p[1].parse().unwrap(), p[2].parse().unwrap());
+            (0..65536).filter(|x| x % m == r).collect()
+        }
+        "blk" => {
+            let (b, v): (usize, usize) = (p[1].parse().unwrap(), p[2].parse().unwrap());
+            (0..65536).filter(|x| (x / b) % 2 == v).collect()
+        }
+        "rnd" => {
+            let (seed, dens): (u64, u64) = (p[1].parse().unwrap(), p[2].parse().unwrap());
+            let mut rng = Rng::new(seed);
+            (0..65536).filter(|_| rng.next() % 16 < dens).collect()
+        }
+        "cpl" => {
+            let out: Vec<usize> = p[1].split(',').map(|x| x.parse().unwrap()).collect();
+            (0..65536).filter(|x| !out.contains(x)).collect()
+        }
+        _ => panic!("structured {desc}"),
+    }
+}
+
+fn structured_family(thorough: bool) -> Vec<String> {
+    let mut v = Vec::new();
+    // hyperplane halves: all single-bit and two-bit functionals (and a stride of the rest), both cosets
+    let mut masks: Vec<usize> = (0..16).map(|b| 1usize << b).collect();
+    for a in 0..16 {
+        for b in a + 1..16 {
+            masks.push(1 << a | 1 << b);
+        }
+    }
+    masks.extend([0xFFFF, 0x00FF, 0xFF00, 0x5555, 0xAAAA, 0x8001, 0x7FFF, 0x1234, 0xFEDC]);
+    if thorough {
+        masks.extend((1..65536usize).step_by(97));
+    }
+    masks.sort();
+    masks.dedup();
+    for m in masks {
+        for c in 0..2 {
+            v.push(format!("hyp:{m}:{c}"));
+        }
+    }
+    for m in [2usize, 3, 4, 5, 7, 16, 17, 255, 256, 257] {
+        v.push(format!("mod:{m}:0"));
+        v.push(format!("mod:{m}:{}", m - 1));
+    }
+    for b in [1usize, 2, 32, 64, 4096, 16384, 32768] {
+        v.push(format!("blk:{b}:0"));
+        v.push(format!("blk:{b}:1"));
+    }
+    for seed in 1..=(if thorough { 40 } else { 8 }) {
+        for dens in [1u64, 8, 15] {
+            v.push(format!("rnd:{seed}:{dens}"));
+        }
+    }
+    for c in ["0", "65535", "0,65535", "1,2,3", "32768", "32767,32768", "100,200,300,40000"] {
+        v.push(format!("cpl:{c}"));
+    }
+    v
+}
+
+fn check_eval_poly_structured(f: &gfref::Field, eng: &str, desc: &str) -> Result<u64, V> {
+    let marked = structured(desc);
+    let want = f.eval_poly_all(&marked);
+    let end = marked.last().map(|x| x + 1).unwrap_or(0);
+    let mut n = 0u64;
+    for trunc in [end, 65536] {
+        let out = match guard(|| with_engine!(eng, E => eval_poly_of::<E>(&marked, trunc))) {
+            Ok(o) => o,
+            Err(p) => return Err(("no panic".into(), format!("PANIC: {p}"))),
+        };
+        for x in 0..65536 {
+            if out[x] as u32 % 65535 != want[x] {
+                return Err((format!("eval_poly(marked = {desc} [{} positions], truncated_size={trunc}) out[{x}] == {} (mod 65535)", marked.len(), want[x]), format!("{}", out[x])));
+            }
+        }
+        n += 65536;
+        if end == 65536 {
+            break;
+        }
+    }
+    Ok(n)
+}
+
 fn decoder_vectors() -> Vec<(Vec<usize>, usize)> {
     let mut v = Vec::new();
     for k in 1..=3usize {
@@ -268,6 +364,7 @@ fn run_case(f: &gfref::Field, kv: &Kv) -> Result<u64, V> {
         "mul" => check_mul_row(f, kv.str("eng"), kv.usize("log_m") as u16),
         "transform" => check_transform_family(f, kv.str("eng"), kv.usize("n") as u32, kv.usize("delta"), kv.usize("len64"), &parse_ranges(kv.str("truncs")), &parse_ranges(kv.str("points")), kv.u64("seed")),
         "eval_poly" => check_eval_poly(f, kv.str("eng"), &parse_ranges(kv.str("marked")), kv.usize("trunc"), kv.usize("stride")),
+        "eval_poly_structured" => check_eval_poly_structured(f, kv.str("eng"), kv.str("desc")),
         "table" => {
             let mut rep = Report::new();
             check_tables(f, &mut rep);
@@ -370,6 +467,17 @@ pub fn run(ctx: &Ctx, rep: &mut Report) {
         let eng = if u % 2 == 0 && engs.contains(&"avx2") { "avx2" } else { "nosimd" };
         cases.push(Kv::new().with("what", "eval_poly").with("eng", eng).with("marked", u).with("trunc", if u % 3 == 0 { 65536 } else { u + 1 }).with("stride", 1));
     }
+    let n_conv = f.self_check_conv();
+    rep.extra("oracle_convolution_reference_checks", J::i(n_conv));
+    let fam = structured_family(ctx.thorough());
+    for (i, d) in fam.iter().enumerate() {
+        let eng = if i % 2 == 0 && engs.contains(&"avx2") { "avx2" } else { "nosimd" };
+        cases.push(Kv::new().with("what", "eval_poly_structured").with("eng", eng).with("desc", d));
+        if ctx.thorough() && i % 7 == 0 {
+            cases.push(Kv::new().with("what", "eval_poly_structured").with("eng", "default").with("desc", d));
+        }
+    }
+    rep.bound("eval_poly_structured", J::s(format!("{} large structured indicator vectors (hyperplane halves for all 1- and 2-bit functionals and more, residue classes, alternating blocks, pseudo-random densities 1/16..15/16, complements of small sets), every output position, against the exact XOR-convolution reference", fam.len())));
     rep.bound("eval_poly", J::s(format!("{} indicator vectors x truncated_size classes (families of C03 + every decoder-built vector for k,r<=3), {} unit vectors", vecs.len(), units.len())));
 
     let results: Vec<Result<u64, V>> = par_for(cases.len(), 4, |i| match guard(|| run_case(&f, &cases[i])) {
@@ -391,6 +499,7 @@ pub fn run(ctx: &Ctx, rep: &mut Report) {
                 key: format!("{}-{}-{}", kv.str("what"), kv.str("eng"), match kv.str("what") {
                     "mul" => format!("m{}", kv.str("log_m")),
                     "transform" => format!("n{}-d{}-t{}", kv.str("n"), kv.str("delta"), kv.str("truncs")),
+                    "eval_poly_structured" => kv.str("desc").to_string(),
                     _ => format!("{}-t{}", kv.str("marked"), kv.str("trunc")),
                 }),
                 case: kv.dump(),
